@@ -24,6 +24,11 @@ def alnum_differential(res):
 
 def check(res):
     corpus = corpora.c06(res.seed, res.tier)
+    hosts = corpus.pop("hosts")
+    # fields whose dot-free paths coincide share one error variable (open finding D10 of C07/C09: the Path of the entry); the
+    # verdict per marker is what C06 states, so the multiset of reported marker types is compared
+    genprop.run(res, "C06", None, hosts, tag="c06h", spec_cmp="obs_same_types")
+    res.coverage["coincident_paths"] = {k: res.coverage.get(k) for k in ("programs", "evaluations", "certificates")}
     genprop.run(res, "C06", PROPFILE, corpus)
     alnum_differential(res)
 
